@@ -173,6 +173,57 @@ def is_eq_call(d, ty=None):
     return c.endswith("PartialEq>::eq") and (ty is None or c.startswith("<%s as " % ty))
 
 
+def bool_origin(du, l, depth=12):
+    """(block of the call that produced boolean local l, negated?) following copies and `!`; None if not a call result."""
+    neg = False
+    n = 0
+    while n < depth:
+        n += 1
+        ds = du.defs.get(l, [])
+        if len(ds) != 1:
+            return None
+        (bid, _i, kind, s) = ds[0]
+        if kind == "call":
+            return (bid, neg)
+        if kind != "assign" or s["lhs"]["proj"]:
+            return None
+        rv = s["rhs"]
+        if rv["k"] == "use" and rv["a"]["k"] in ("copy", "move") and not rv["a"]["p"]["proj"]:
+            l = rv["a"]["p"]["l"]
+        elif rv["k"] == "unop" and rv["op"] == "Not" and rv["a"]["k"] in ("copy", "move") and not rv["a"]["p"]["proj"]:
+            l = rv["a"]["p"]["l"]
+            neg = not neg
+        else:
+            return None
+    return None
+
+
+def outcome_on_path(body, du, path, call_bid):
+    """The boolean result the call at block `call_bid` must have had for control to follow `path` (True/False), read
+    off the switch that tests it further along the path; None when the path does not branch on it."""
+    if call_bid not in path:
+        return None
+    i = path.index(call_bid)
+    for j in range(i + 1, len(path) - 1):
+        t = body.blocks[path[j]]["term"]
+        if t["k"] != "switch" or t.get("dty") != "bool" or op_local(t["discr"]) is None or t["discr"]["p"]["proj"]:
+            continue
+        o = bool_origin(du, op_local(t["discr"]))
+        if o is None or o[0] != call_bid:
+            continue
+        nxt = path[j + 1]
+        ones = [bb for v, bb in t["targets"] if int(v) == 1]
+        zeros = [bb for v, bb in t["targets"] if int(v) == 0]
+        if nxt in ones:
+            val = True
+        elif nxt in zeros:
+            val = False
+        else:
+            val = not zeros if ones == [] and zeros else (True if zeros else False)   # otherwise edge
+        return (not val) if o[1] else val
+    return None
+
+
 def switch_test(body, du, bid):
     """For a block ending in a boolean switch: (d, bb_holds, bb_fails) where d is the canonical description of the
     tested condition and bb_holds the successor taken when d holds (so `if !(a < b)`, `if b <= a`, `let e = b <= a; if e`
@@ -187,6 +238,10 @@ def switch_test(body, du, bid):
     t_bb = one[0] if one else t["otherwise"]
     d2, v = canon_bool(d, True)
     return (d2, t_bb, f_bb) if v else (d2, f_bb, t_bb)
+
+
+_VARIANT_TESTS = {"std::option::Option::is_some": "Some", "std::option::Option::is_none": "None",
+                  "std::result::Result::is_ok": "Ok", "std::result::Result::is_err": "Err"}
 
 
 class PathWalker:
@@ -220,6 +275,15 @@ class PathWalker:
         vals = [v for v, bb in t["targets"] if bb == target]
         return ("int", d, vals[0] if vals else ("not", tuple(v for v, _ in t["targets"])))
 
+    def escapes(self, start, through, exits=None):
+        """Path-sensitive must-pass: the feasible acyclic paths from `start` to an exit (default: return) that enter no
+        block of `through`.  Infeasible combinations (a flag known false, an Option known None tested with is_some, a
+        second match on a value whose variant an earlier arm fixed) are not followed.  [] means every path passes."""
+        through = set(through)
+        ex = set(self.cfg.returns if exits is None else exits)
+        ps = self.walk(start, lambda bid, t: ("through",) if bid in through else (("exit", bid) if bid in ex else None))
+        return [(p, c) for (p, c, sv) in ps if sv[0] == "exit"]
+
     def walk(self, start, stop, record_exp=False):
         """stop(bid, term) -> truthy ends the path at that block (inclusive). Returns list of (blocks, conds, stopval)."""
         out = []
@@ -234,22 +298,51 @@ class PathWalker:
             # boolean constants assigned along this path (lowering of matches!/&&/|| and drop flags)
             envd = dict(env)
             for s in self.body.blocks[bid]["stmts"]:
-                if s["k"] == "assign" and not s["lhs"]["proj"]:
-                    l = s["lhs"]["l"]
-                    rv = s["rhs"]
-                    if rv["k"] == "use" and rv["a"]["k"] == "const" and rv["a"].get("ty") == "bool" and "v" in rv["a"]:
-                        envd[l] = int(rv["a"]["v"])
-                    elif rv["k"] == "use" and rv["a"]["k"] in ("copy", "move") and not rv["a"]["p"]["proj"] and rv["a"]["p"]["l"] in envd:
-                        envd[l] = envd[rv["a"]["p"]["l"]]
-                    elif rv["k"] == "unop" and rv["op"] == "Not" and rv["a"]["k"] in ("copy", "move") and not rv["a"]["p"]["proj"] and rv["a"]["p"]["l"] in envd and self.body.locals[l] == "bool":
-                        envd[l] = 1 - envd[rv["a"]["p"]["l"]]
+                if s["k"] != "assign":
+                    continue
+                l = s["lhs"]["l"]
+                if s["lhs"]["proj"]:
+                    # a store into part of a value (or through a reference) invalidates what is known about it
+                    tgt = envd.get(l)
+                    if isinstance(tgt, tuple) and tgt[0] == "R":
+                        envd.pop(tgt[1], None)
                     else:
                         envd.pop(l, None)
-            env = frozenset(envd.items())
+                    continue
+                rv = s["rhs"]
+                src = rv["a"]["p"]["l"] if rv["k"] in ("use", "unop") and rv.get("a") and rv["a"]["k"] in ("copy", "move") and not rv["a"]["p"]["proj"] else None
+                if rv["k"] == "use" and rv["a"]["k"] == "const" and rv["a"].get("ty") == "bool" and "v" in rv["a"]:
+                    envd[l] = int(rv["a"]["v"])
+                elif rv["k"] == "use" and src is not None and src in envd:
+                    envd[l] = envd[src]
+                elif rv["k"] == "unop" and rv["op"] == "Not" and src is not None and isinstance(envd.get(src), int) and self.body.locals[l] == "bool":
+                    envd[l] = 1 - envd[src]
+                elif rv["k"] == "agg" and rv.get("adt") and rv.get("variant") is not None and len((self.body.facts.nadts.get(norm(rv["adt"])) or {"variants": []})["variants"]) > 1:
+                    envd[l] = ("V", rv["variant"])       # an enum value built here: its variant is known on this path
+                elif rv["k"] == "ref" and not rv["p"]["proj"]:
+                    envd[l] = ("R", rv["p"]["l"])
+                elif rv["k"] == "discr" and not rv["p"]["proj"] and isinstance(envd.get(rv["p"]["l"]), tuple) and envd[rv["p"]["l"]][0] == "V":
+                    envd[l] = ("D", rv.get("adt"), envd[rv["p"]["l"]][1])
+                else:
+                    envd.pop(l, None)
             t = self.body.blocks[bid]["term"]
-            if t["k"] == "call" and t["dest"]["l"] in envd:
-                envd.pop(t["dest"]["l"], None)
-                env = frozenset(envd.items())
+            if t["k"] == "call":
+                # a value handed out by `&mut` may be changed by the callee
+                for a in t["args"]:
+                    if a["k"] in ("copy", "move") and not a["p"]["proj"]:
+                        v = envd.get(a["p"]["l"])
+                        if isinstance(v, tuple) and v[0] == "R" and self.body.locals[a["p"]["l"]].startswith("&mut"):
+                            envd.pop(v[1], None)
+                dl = t["dest"]["l"]
+                envd.pop(dl, None)
+                cn = norm(t.get("callee") or "")
+                if cn in _VARIANT_TESTS and t["args"] and t["args"][0]["k"] in ("copy", "move") and not t["args"][0]["p"]["proj"] and not t["dest"]["proj"]:
+                    v = envd.get(t["args"][0]["p"]["l"])
+                    if isinstance(v, tuple) and v[0] == "R":
+                        v = envd.get(v[1])
+                    if isinstance(v, tuple) and v[0] == "V":
+                        envd[dl] = 1 if v[1] == _VARIANT_TESTS[cn] else 0
+            env = frozenset(envd.items())
             sv = stop(bid, t)
             if sv:
                 out.append((path, conds, sv))
@@ -260,8 +353,13 @@ class PathWalker:
             if not succs:
                 out.append((path, conds, ("end", t["k"])))
                 continue
-            if t["k"] == "switch" and op_local(t["discr"]) in envd and not t["discr"]["p"]["proj"]:
-                v = envd[op_local(t["discr"])]
+            known = envd.get(op_local(t["discr"])) if t["k"] == "switch" and not t["discr"]["p"]["proj"] and op_local(t["discr"]) is not None else None
+            if isinstance(known, tuple) and known[0] == "D":
+                a_ = self.body.facts.nadts.get(norm(known[1] or "")) or {"variants": []}
+                dv = [v_["discr"] for v_ in a_["variants"] if v_["name"] == known[2]]
+                known = int(dv[0]) if dv else None
+            if isinstance(known, int):
+                v = known
                 tg = [bb for val, bb in t["targets"] if int(val) == v]
                 bb = tg[0] if tg else t["otherwise"]
                 if bb not in path:
@@ -277,7 +375,15 @@ class PathWalker:
                     if self.body.blocks[bb]["term"]["k"] == "unreachable" and not self.body.blocks[bb]["stmts"]:
                         continue
                     c = self.cond_for(bid, bb, bb == t["otherwise"] and not any(x[1] == bb for x in t["targets"]))
-                    stack.append((bb, path + (bb,), conds + (c,), env))
+                    env2 = env
+                    if c[0] == "variant" and len(c[2]) == 1:
+                        # the arm taken tells which variant the matched value is: later tests of the same value follow
+                        si = switch_info(self.body, self.du, bid)
+                        if si and si.get("place") and not si["place"]["proj"]:
+                            e2 = dict(envd)
+                            e2[si["place"]["l"]] = ("V", c[2][0])
+                            env2 = frozenset(e2.items())
+                    stack.append((bb, path + (bb,), conds + (c,), env2))
             else:
                 for bb in succs:
                     if bb in path:
